@@ -10,12 +10,18 @@ Tie between lean/TbbVerif/{Model,Props}/C07.lean and the current tree of REPO (s
   E-REAL  the real tbb::parallel_pipeline (libtbb built from the current tree) with logging filter bodies on real
           threads; the observed per-filter event log must be a trace of the Lean `Pipeline` model (driver c07pipe);
           python monitors of the property itself + atomic counters inside the bodies (MON lines)
+  E-SHIM  the real tbb::parallel_pipeline on the WHOLE instrumented runtime (src/tbb/*.cpp compiled with the atomic shim,
+          worker threads created under the controlled scheduler): every atomic access of parallel_pipeline.cpp
+          (input_tokens, end_of_input, the buffers' spin_mutex, wait_ctx) is a scheduling point; seeded random schedules,
+          bit-for-bit replay from (config, schedule); same log format, same monitors, same model validation
 """
+import hashlib
 import json
 import os
 import time
 from concurrent.futures import ThreadPoolExecutor
 
+import common
 from common import (BuildError, REPO, ROOT, cxx_build, drv, ensure_repo_built, find_tbb_lib, first_diff, gen_write, log, sh)
 
 H = "harness/c07/"
@@ -280,7 +286,7 @@ def ring_monitor(ops, outs):
 
 def run_pure_seq(exe, ops):
     text = "".join(op_text(o) + "\n" for o in ops)
-    rc, out, err = sh([exe], input=text, timeout=300)
+    rc, out, err = sh([exe], input=text, timeout=20)
     outs = out.split("\n")[:-1] if out.endswith("\n") else out.split("\n")
     if rc != 0:
         return outs, (len(outs), "crash", "harness rc=%d: %s" % (rc, err.strip()[-600:]))
@@ -292,7 +298,8 @@ def ddmin(ops, fails):
     body = list(ops[1:])
     n = 2
     budget = 400
-    while len(body) >= 2 and budget > 0:
+    t_end = time.time() + 150
+    while len(body) >= 2 and budget > 0 and time.time() < t_end:
         chunk = max(1, len(body) // n)
         reduced = False
         for start in range(0, len(body), chunk):
@@ -364,9 +371,10 @@ def run_buf(ck, consts, libs):
             lines.append(op_text(op))
             owner.append((si, oi))
     text = "\n".join(lines) + "\n"
-    rc, out, err = sh([exe], input=text, timeout=1800)
+    rc, out, err = sh([exe], input=text, timeout=120 if quick else 1200)
     impl = out.split("\n")[:-1]
     crashed = rc != 0
+
     model = drv("c07buf", text)
     d = first_diff(impl, model)
     kinds, grows, maxsize = {}, 0, 0
@@ -413,7 +421,14 @@ def run_buf(ck, consts, libs):
         pos += len(ops)
         r = ring_monitor(ops, outs)
         if r is None and len(outs) < len(ops):
-            r = (len(outs), "crash", "harness rc=%d after %d lines: %s" % (rc, len(impl), err.strip()[-400:]))
+            r = (len(outs), "crash", "harness rc=%d (crash, sanitizer abort or no answer in time) after %d lines: %s" % (rc, len(impl), err.strip()[-400:]))
+            # the output is flushed at every `new`: the culprit is this sequence or the next one
+            for sj in (si, si + 1):
+                if sj < len(seqs):
+                    _, rj = run_pure_seq(exe, seqs[sj][1])
+                    if rj is not None:
+                        si, ops, r = sj, seqs[sj][1], rj
+                        break
         if r is not None:
             bad = (si, ops, r)
             break
@@ -783,50 +798,65 @@ def minimise(exe, cfg, clause, rng, budget_runs=3000):
 
 def run_real(ck, libs):
     exe = build_real(libs)
-    cfgs = make_configs(ck)
-    procs = 3 if ck.tier == "quick" else 4
-    t0 = time.time()
-    res = run_configs(exe, cfgs, procs)
-    ck.extra["real_run_s"] = round(time.time() - t0, 1)
+    quick = ck.tier == "quick"
+    procs = 3 if quick else 4
+    rounds = 1 if quick else 4          # thorough: the whole configuration set with 4 different seed sets
     fails = {k: [] for k in CLAUSES}
-    batch = []
-    dist = {"limit": {}, "items": {}, "threads": {}, "delaymode": {}, "len": {}}
-    reordered = 0
-    for c, (ev, term, mons) in zip(cfgs, res):
-        bad = monitor_log(c, ev, term, mons)
-        for cl, det in bad:
-            fails[cl].append((c, det, ev))
-        if term in ("ret", "hang"):
-            batch.append((c, ev))
-        ck.count(1, (c[0], c[1], min(c[2], 3), c[3] > 1))
-        for key, val in (("limit", c[1]), ("items", c[2]), ("threads", c[3]), ("delaymode", c[5]), ("len", len(c[0]))):
-            dist[key][val] = dist[key].get(val, 0) + 1
-        if len(c[0]) > 1:
-            last = [int(e.split()[2]) for e in ev if e.startswith("b %d " % (len(c[0]) - 1))]
-            if last != sorted(last):
-                reordered += 1
-    ck.extra["real_config_distribution"] = {k: dict(sorted(v.items())) for k, v in dist.items()}
-    ck.extra["real_runs"] = len(cfgs)
-    ck.extra["real_runs_with_overtaking_at_last_filter"] = reordered
-    for c, ev in batch[len(batch) // 2:len(batch) // 2 + 3]:
-        ck.sample({"config": list(c), "log_head": ev[:14], "events": len(ev)})
-    # correspondence: each log is a trace of the Lean Pipeline model
     corr_bad = []
-    CH = 400
-    chunks = [batch[i:i + CH] for i in range(0, len(batch), CH)]
-    t0 = time.time()
-    with ThreadPoolExecutor(max_workers=4) as ex:
-        vres = list(ex.map(validate_logs, chunks))
-    ck.extra["real_validate_s"] = round(time.time() - t0, 1)
-    for chunk, vr in zip(chunks, vres):
-        for (c, ev), r in zip(chunk, vr):
-            if r is None:
-                ck.traces_validated += 1
-            else:
-                corr_bad.append((c, r, ev))
+    dist = {"limit": {}, "items": {}, "threads": {}, "delaymode": {}, "len": {}}
+    reordered = nruns = nlogs = 0
+    t_run = t_val = 0.0
+    for rd in range(rounds):
+        cfgs = make_configs(ck)
+        t0 = time.time()
+        res = run_configs(exe, cfgs, procs)
+        t_run += time.time() - t0
+        batch = []
+        for c, (ev, term, mons) in zip(cfgs, res):
+            bad = monitor_log(c, ev, term, mons)
+            for cl, det in bad:
+                if len(fails[cl]) < 50:
+                    fails[cl].append((c, det, ev))
+                else:
+                    fails[cl].append((c, det, None))
+            if term in ("ret", "hang"):
+                batch.append((c, ev))
+            ck.count(1, (c[0], c[1], min(c[2], 3), c[3] > 1))
+            for key, val in (("limit", c[1]), ("items", c[2]), ("threads", c[3]), ("delaymode", c[5]), ("len", len(c[0]))):
+                dist[key][val] = dist[key].get(val, 0) + 1
+            if len(c[0]) > 1:
+                last = [int(e.split()[2]) for e in ev if e.startswith("b %d " % (len(c[0]) - 1))]
+                if last != sorted(last):
+                    reordered += 1
+        nruns += len(cfgs)
+        nlogs += len(batch)
+        if rd == 0:
+            for c, ev in batch[len(batch) // 2:len(batch) // 2 + 3]:
+                ck.sample({"config": list(c), "log_head": ev[:14], "events": len(ev)})
+        # correspondence: each log is a trace of the Lean Pipeline model
+        CH = 400
+        chunks = [batch[i:i + CH] for i in range(0, len(batch), CH)]
+        t0 = time.time()
+        with ThreadPoolExecutor(max_workers=4) as ex:
+            vres = list(ex.map(validate_logs, chunks))
+        t_val += time.time() - t0
+        for chunk, vr in zip(chunks, vres):
+            for (c, ev), r in zip(chunk, vr):
+                if r is None:
+                    ck.traces_validated += 1
+                else:
+                    corr_bad.append((c, r, ev if len(corr_bad) < 20 else []))
+        del batch, res
+        if any(fails.values()) or corr_bad:
+            break
+    ck.extra["real_config_distribution"] = {k: dict(sorted(v.items())) for k, v in dist.items()}
+    ck.extra["real_runs"] = nruns
+    ck.extra["real_runs_with_overtaking_at_last_filter"] = reordered
+    ck.extra["real_run_s"] = round(t_run, 1)
+    ck.extra["real_validate_s"] = round(t_val, 1)
     ck.oblige("corr:event log is a trace of the Pipeline model", "correspondence", not corr_bad,
               "" if not corr_bad else "%d of %d logs rejected; first: config %s: line #%d %r -> %s; log: %s" % (
-                  len(corr_bad), len(batch), list(corr_bad[0][0]), corr_bad[0][1][2], corr_bad[0][1][0], corr_bad[0][1][1], " / ".join(corr_bad[0][2])[:1200]))
+                  len(corr_bad), nlogs, list(corr_bad[0][0]), corr_bad[0][1][2], corr_bad[0][1][0], corr_bad[0][1][1], " / ".join(corr_bad[0][2])[:1200]))
     for cl, desc in CLAUSES.items():
         f = fails[cl]
         ck.oblige("monitor:" + desc, "correspondence", not f,
@@ -857,7 +887,7 @@ def run_real(ck, libs):
             f = [x for x in fails.get(cl, []) if x[0] == c]
             if not f:
                 continue
-            best = (c, f[0][2], (cl, f[0][1]))
+            best = (c, f[0][2] or [], (cl, f[0][1]))
         bc, bev, (bcl, bdet) = best
         key = "pipe:%s:%s" % (bc[0], bcl)
         if key in done_keys:
@@ -868,6 +898,185 @@ def run_real(ck, libs):
 
 
 # ---------------------------------------------------------------------------------------------
+# E-SHIM: the real parallel_pipeline on the whole instrumented runtime under the controlled scheduler
+# ---------------------------------------------------------------------------------------------
+def build_shim():
+    objs = common.shim_runtime_objects()
+    # cxx_build re-links only when one of `sources` was recompiled; the instrumented runtime objects come in through
+    # `libs`, so their content hash is made part of the link command (a changed parallel_pipeline.cpp must re-link)
+    hh = hashlib.sha1("".join(common._sha(o) for o in objs).encode()).hexdigest()[:16]
+    return cxx_build("C07", "shim", [H + "shim.cpp", common.SHIM_SRC],
+                     flags=["-O1", "-g", "-fno-access-control", "-I" + REPO + "/src"] + common.SHIM_FLAGS,
+                     libs=objs + ["-ldl", "-Wl,--build-id=0x" + hh])
+
+
+def shim_args(c):
+    """c = (modes, limit, items, P, bodyseed, schedseed, stay)"""
+    return [c[0], str(c[1]), str(c[2]), str(c[3]), str(c[4]), "rand", str(c[5]), str(c[6])]
+
+
+def parse_shim(out):
+    ev, sched, stat, seen_begin = [], None, {}, False
+    for l in out.split("\n"):
+        if l.startswith("begin "):
+            seen_begin = True
+        elif l.startswith("sched "):
+            sched = l[6:]
+        elif l.startswith("stat "):
+            stat = dict(kv.split("=") for kv in l.split()[1:])
+        elif l == "end" or not l:
+            continue
+        elif seen_begin:
+            ev.append(l)
+    return ev, sched, stat
+
+
+def run_shim_one(exe, c, schedule=None):
+    args = shim_args(c) if schedule is None else [c[0], str(c[1]), str(c[2]), str(c[3]), str(c[4]), "replay", schedule]
+    # a run is bit-for-bit reproducible from its arguments, so a genuine crash reproduces; a crash that does not
+    # (the sandbox occasionally kills a process under load) is retried and not reported
+    for attempt in range(4):
+        rc, out, err = sh([exe] + args, timeout=120)
+        if rc in (0, 3):
+            break
+    ev, sched, stat = parse_shim(out)
+    term = "ret" if (ev and ev[-1] == "ret" and rc == 0) else ("deadlock" if rc == 3 else ("crash" if rc != 0 else None))
+    mons = []
+    if rc == 3:
+        mons.append("MON return-before-drain deadlock: every controlled thread is parked (lost wake-up / lost hand-off / step limit), stat %s" % stat)
+    elif rc != 0:
+        mons.append("MON crash harness rc=%d %s" % (rc, err.strip()[-300:]))
+    return ev, term, mons, sched, stat
+
+
+def shim_configs(ck):
+    rng = ck.rng
+    per = 40 if ck.tier == "quick" else 400
+    cfgs = []
+    limits = [1, 2, 3, 4, 2, 1, 3, 7]
+    stays = [96, 32, 0, 160, 224, 64]
+    j = rng.randrange(1000)
+    for modes in all_modes(4):
+        for r in range(per):
+            j += 1
+            limit = limits[j % len(limits)]
+            items = (j * 7) % 13 if r % 5 else rng.choice([0, 1, 2, 13, 20])
+            P = [2, 3, 4, 2, 3, 4, 1, 5, 3, 8][(j * 3) % 10]
+            cfgs.append((modes, limit, items, P, rng.randrange(0, 1 << 30) if r % 3 else 0, rng.randrange(1, 1 << 30), stays[j % len(stays)]))
+    return cfgs
+
+
+def run_shim(ck):
+    exe = build_shim()
+    cfgs = shim_configs(ck)
+    t0 = time.time()
+    with ThreadPoolExecutor(max_workers=min(8, common.NCPU)) as ex:
+        res = list(ex.map(lambda c: run_shim_one(exe, c), cfgs))
+    ck.extra["shim_run_s"] = round(time.time() - t0, 1)
+    fails = {k: [] for k in CLAUSES}
+    batch = []
+    steps = 0
+    reordered = 0
+    threads_seen = {}
+    for c, (ev, term, mons, sched, stat) in zip(cfgs, res):
+        c6 = (c[0], c[1], c[2], c[3], c[5], 0)
+        bad = monitor_log(c6, ev, "ret" if term == "ret" else term, mons)
+        for cl, det in bad:
+            fails[cl].append((c, det, ev, sched))
+        if term == "ret":
+            batch.append((c6, ev, c, sched))
+        if len(c[0]) > 1:
+            last = [int(e.split()[2]) for e in ev if e.startswith("b %d " % (len(c[0]) - 1))]
+            if last != sorted(last):
+                reordered += 1
+        steps += int(stat.get("steps", 0) or 0)
+        th = stat.get("threads", "?")
+        threads_seen[th] = threads_seen.get(th, 0) + 1
+        ck.count(1, ("shim", c[0], c[1], min(c[2], 3), c[3] > 1))
+    ck.extra["shim_runs"] = len(cfgs)
+    ck.extra["shim_runs_with_overtaking_at_last_filter"] = reordered
+    ck.extra["shim_scheduling_points"] = steps
+    ck.extra["shim_threads_per_run"] = dict(sorted(threads_seen.items()))
+    corr_bad = []
+    CH = 400
+    chunks = [batch[i:i + CH] for i in range(0, len(batch), CH)]
+    with ThreadPoolExecutor(max_workers=4) as ex:
+        vres = list(ex.map(lambda ch: validate_logs([(a, b) for a, b, _, _ in ch]), chunks))
+    for chunk, vr in zip(chunks, vres):
+        for (c6, ev, c, sched), r in zip(chunk, vr):
+            if r is None:
+                ck.traces_validated += 1
+            else:
+                corr_bad.append((c, r, ev, sched))
+    if batch:
+        c6, ev, c, sched = batch[len(batch) // 3]
+        ck.sample({"engine": "E-SHIM", "config": list(c), "log_head": ev[:14], "events": len(ev), "schedule_head": (sched or "")[:120]})
+    ck.oblige("corr:E-SHIM event log (whole instrumented runtime, controlled schedule) is a trace of the Pipeline model", "correspondence",
+              not corr_bad, "" if not corr_bad else "%d of %d logs rejected; first: shim %s: line #%d %r -> %s; log: %s" % (
+                  len(corr_bad), len(batch), " ".join(shim_args(corr_bad[0][0])), corr_bad[0][1][2], corr_bad[0][1][0], corr_bad[0][1][1],
+                  " / ".join(corr_bad[0][2])[:1200]))
+    anyfail = [(cl, f) for cl, f in fails.items() if f]
+    ck.oblige("monitor:E-SHIM runs satisfy every clause of the property (once / order / serial-overlap / live<=limit / return after drain, no deadlock)",
+              "correspondence", not anyfail,
+              "" if not anyfail else "; ".join("%s: %d run(s), first shim %s: %s" % (cl, len(f), " ".join(shim_args(f[0][0])), f[0][1]) for cl, f in anyfail)[:1800])
+    # failing-input search: smallest failing (config, schedule) among neighbours of the first failure of each clause
+    done = set()
+    for cl, f in anyfail[:3]:
+        c, det, ev, sched = f[0]
+        best = (c, det, ev, sched)
+        tries = 0
+        rng = ck.rng
+        for items in sorted(set([0, 1, 2, 3, 4, 6, c[2]])):
+            for limit in sorted(set([1, 2, c[1]])):
+                for P in sorted(set([1, 2, 3, c[3]])):
+                    if (items, limit, P) >= (best[0][2], best[0][1], best[0][3]) or tries > (1500 if ck.tier == "quick" else 6000):
+                        continue
+                    for t in range(40):
+                        tries += 1
+                        c2 = (c[0], limit, items, P, c[4], rng.randrange(1, 1 << 30), [96, 0, 200, 32][t % 4])
+                        ev2, term2, mons2, sched2, stat2 = run_shim_one(exe, c2)
+                        bad2 = monitor_log((c2[0], c2[1], c2[2], c2[3], c2[5], 0), ev2, term2, mons2)
+                        hit = [b for b in bad2 if b[0] == cl]
+                        if hit:
+                            best = (c2, hit[0][1], ev2, sched2)
+                            break
+        bc, bdet, bev, bsched = best
+        key = "shim:%s:%s" % (bc[0], cl)
+        if key in done:
+            continue
+        done.add(key)
+        ck.counterexample(key, "parallel_pipeline(modes=%s, max_number_of_live_tokens=%d, %d items, parallelism %d) under a controlled schedule: %s: %s" % (
+            bc[0], bc[1], bc[2], bc[3], CLAUSES[cl], bdet),
+            {"engine": "E-SHIM", "harness": H + "shim.cpp", "config": list(bc), "schedule": bsched, "monitor": cl, "observed_log": bev[:400], "detail": bdet})
+
+
+def replay_shim(ck, obj):
+    r = obj["replay"]
+    exe = build_shim()
+    c = tuple(r["config"])
+    clause = r.get("monitor")
+    print("replay of %s on %s: shim %s under the recorded schedule" % (obj.get("key"), REPO, " ".join(shim_args(c)[:5])))
+    ev, term, mons, sched, stat = run_shim_one(exe, c, schedule=r.get("schedule") or "0*1")
+    bad = monitor_log((c[0], c[1], c[2], c[3], c[5], 0), ev, term, mons)
+    hit = [b for b in bad if clause is None or b[0] == clause] or bad
+    if hit:
+        print("STILL FAILS (recorded schedule): %s: %s" % (CLAUSES.get(hit[0][0], hit[0][0]), hit[0][1]))
+        print("observed log: " + " / ".join(ev)[:3000])
+        return 1
+    for t in range(200):
+        c2 = c[:5] + (c[5] + t, [96, 0, 200, 32][t % 4])
+        ev, term, mons, sched, stat = run_shim_one(exe, c2)
+        bad = monitor_log((c2[0], c2[1], c2[2], c2[3], c2[5], 0), ev, term, mons)
+        hit = [b for b in bad if clause is None or b[0] == clause] or bad
+        if hit:
+            print("STILL FAILS on shim %s: %s: %s" % (" ".join(shim_args(c2)), CLAUSES.get(hit[0][0], hit[0][0]), hit[0][1]))
+            print("observed log: " + " / ".join(ev)[:3000])
+            return 1
+    print("property holds now: the recorded schedule and 200 random schedules of this configuration are quiet")
+    return 0
+
+
+# ---------------------------------------------------------------------------------------------
 def run(ck):
     ck.rule = ("E-PURE: random operation sequences (new/put/done/tok) on the real input_buffer in 5 styles (mixed, growth with far-ahead tokens "
                "low+size, low+size+1, low+2*size+3, several doublings while other tokens are parked, wrap = low travels round the ring with parked "
@@ -875,7 +1084,9 @@ def run(ck):
                "E-REAL: real tbb::parallel_pipeline runs for ALL filter-mode sequences of length 1..4 over {parallel, serial_in_order, "
                "serial_out_of_order} (+ some of length 5..8) with limits 1..4,7/8,16, item counts 0..12,25,40,64,200, 1..8 threads, 5 seeded "
                "delay shapes (none, random spin, heavy-tailed, early-items-slow, sleep/yield), items carried as size_t ids (id 0 = null void*) "
-               "or pointers. distinct = (mode sequence, limit, min(items,3), threads>1) classes for runs; (operation, outcome class) for ring ops")
+               "or pointers. E-SHIM: the same mode sequences (length 1..4, 40 runs each; thorough 400) with limits 1..4,7, 0..13/20 items, "
+               "parallelism 1..5,8, seeded numbers of scheduling points inside every filter body, seeded random controlled schedules with six "
+               "different preemption rates. distinct = (mode sequence, limit, min(items,3), threads>1) classes for runs; (operation, outcome class) for ring ops")
     ck.assumptions += [
         "model covers: the input_buffer ring exactly (array/array_size/low_token/high_token, grow, put, note-done, get_ordered_token), the "
         "input_tokens accounting (fetch_sub/fetch_add, recycling), end_of_input, and the put / note-done / recycle protocol of "
@@ -887,8 +1098,11 @@ def run(ck):
         "the tie of the pipeline protocol model to the code is sampled: E-REAL observes only the filter-body events of the schedules that happen on "
         "this machine (the invisible steps are reconstructed by the validator); the ring model is tied by a white-box differential on generated "
         "operation sequences",
+        "the model fuses the input filter's end-of-input return with the store end_of_input=true (the code stores after the body returned); the "
+        "validator therefore treats the log position of an `ie -` event of a parallel input filter as a lower bound of the model step",
         "input_buffer::try_put_token with token < low_token is undefined in release builds (assertion only); the generator never produces it"]
-    ck.trusted += ["harness/c07/pure.cpp, harness/c07/real.cpp, harness/c07/consts.cpp (observation of the real code)",
+    ck.trusted += ["harness/c07/pure.cpp, harness/c07/real.cpp, harness/c07/shim.cpp, harness/c07/consts.cpp (observation of the real code)",
+                   "harness/shim/* (atomic shim + controlled scheduler; sequentially consistent executions only)",
                    "checks/c07.py monitors (python mirror of the token map; log monitors)",
                    "lean/TbbVerif/Model/C07.lean drivers driveBuf/drivePipe (trace validator inserts invisible steps, every state change goes through `step`)",
                    "correspondence is sampled (differential / trace validation), not proved"]
@@ -901,11 +1115,17 @@ def run(ck):
     consts = gen(ck, libs)
     lap("build+gen")
     ck.lean_stage()
+    if ck.tier == "thorough":
+        # independent re-check of the compiled property module by the external kernel checker
+        rc, out, err = sh(["lake", "env", "leanchecker", "TbbVerif.Props.C07"], cwd=common.LEAN, timeout=1800)
+        ck.oblige("audit:leanchecker TbbVerif.Props.C07", "audit", rc == 0, (out + err)[-600:])
     lap("lean")
     run_buf(ck, consts, libs)
     lap("ring")
     run_real(ck, libs)
     lap("real")
+    run_shim(ck)
+    lap("shim")
 
 
 # ---------------------------------------------------------------------------------------------
@@ -927,6 +1147,8 @@ def replay(ck, obj):
             return 0
         print("STILL FAILS at op #%d: %s: %s" % rr)
         return 1
+    if r.get("engine") == "E-SHIM":
+        return replay_shim(ck, obj)
     exe = build_real(libs)
     cfg = tuple(r["config"])
     clause = r.get("monitor")
@@ -936,15 +1158,23 @@ def replay(ck, obj):
     for t in range(1, 200):
         cand.append((modes, limit, items, threads, seed + t, [dm % 10, 2, 4, 3, 1][t % 5] + v if t >= 20 else dm))
     print("replay of %s on %s: up to %d runs of %s" % (obj.get("key"), REPO, len(cand), cfg_line(cfg)))
+    other = None
     for lo in range(0, len(cand), 40):
         part = cand[lo:lo + 40]
         res = run_configs(exe, part, 4)
         for c, (ev, term, mons) in zip(part, res):
             bad = monitor_log(c, ev, term, mons)
-            hit = [b for b in bad if clause is None or b[0] == clause] or bad
+            hit = [b for b in bad if clause is None or b[0] == clause]
             if hit:
                 print("STILL FAILS on %s: %s: %s" % (cfg_line(c), CLAUSES.get(hit[0][0], hit[0][0]), hit[0][1]))
                 print("observed log: " + " / ".join(ev)[:3000])
                 return 1
+            if bad and other is None:
+                other = (c, ev, bad[0])
+    if other is not None:
+        c, ev, b = other
+        print("recorded clause %r not observed again, but the property STILL FAILS on %s: %s: %s" % (clause, cfg_line(c), CLAUSES.get(b[0], b[0]), b[1]))
+        print("observed log: " + " / ".join(ev)[:3000])
+        return 1
     print("property holds now: %d runs, all monitors quiet" % len(cand))
     return 0
